@@ -67,6 +67,7 @@ class World(object):
         self.procs = {}
         self.advance_next = True      # coarse clock: does the next stamping step advance the clock?
         self.puts = 0
+        self.stamp_from = 0           # purge obligation (checked_at) of the process that wrote the current stamp
         self.put_at = {}              # inode index -> sequence number of its installation under the entry name
         self.stamp_stale = {}         # inode index -> True if an mtime was stamped on superseded content
         self._write_src()
@@ -301,6 +302,10 @@ def proxy_open(path, mode='r', *a, **k):
         if content != w.hash[w.svers[pr.p]]:
             pr.must_purge = True
             pr.checked_at = w.puts + 1
+        else:
+            # the stamp says "entries of other scanner versions are gone": this process relies on the
+            # purge of whoever wrote it and inherits that process's obligation (tla/Cache.tla CvRead)
+            pr.checked_at = w.stamp_from
         return f
     if path == w.entry and 'r' in mode:
         pr.phase = 'load'
@@ -384,6 +389,7 @@ class ShutilProxy(object):
         if dst == w.stampfile:
             pr.yield_('CvStamp')
             r = shutil.move(src, dst)
+            w.stamp_from = pr.checked_at
             w.log(pr.p, 'CvStamp')
             return r
         pr.yield_('SMove')                      # controller sets pr.choice
@@ -548,6 +554,8 @@ def run_schedule(root, schedule, nprocs=3, svers=None, coarse=False, random_rng=
             if act == 'Crash':
                 crash(pr)
                 continue
+            if act == 'run' and (pr.finished or pr.killed):
+                continue                  # directed schedules: "let p run" beyond its end is a no-op
             if pr.finished:
                 info['mismatch'] = 'step %d: model wants %s(%d) but the process has finished' % (info['steps'], act, p)
                 break
